@@ -411,6 +411,23 @@ def o4(ctx: Ctx, ties_matter: bool = True):
     alldefs = {**defs, **gdefs}
     ws = [n for n in ast.walk(G) if isinstance(n, ast.Assign) and len(n.targets) == 1 and norm(n.targets[0]).endswith(".individuals")]
     if len(ws) != 1 or not isinstance(ws[0].value, ast.ListComp):
+        # positive evidence (for "the kept candidates are the best of the level" only): what is written back for a parent is
+        # computed without the pooled ranking `C` - from the parent's own list and counters - so candidates of different
+        # parents are never compared with each other
+        if not ties_matter and len(ws) == 1:
+            W0 = ws[0]
+            seen, todo = set(), [x.id for x in ast.walk(W0.value) if isinstance(x, ast.Name)]
+            while todo:
+                nm = todo.pop()
+                if nm in seen:
+                    continue
+                seen.add(nm)
+                for dv in alldefs.get(nm, []):
+                    todo.extend(x.id for x in ast.walk(dv) if isinstance(x, ast.Name))
+            in_parent_loop = [n for n in ast.walk(G) if isinstance(n, ast.For) and any(x is W0 for x in ast.walk(n)) and norm(n.iter) == D]
+            if C not in seen and in_parent_loop and isinstance(in_parent_loop[0].target, ast.Name) and canon(W0.targets[0]) == f"{cand_p}[{in_parent_loop[0].target.id}].individuals":
+                obs.append(ctx.ob("C08.O4", f, W0, status=VIOLATION, detail=f"what is kept for a parent (`{norm(W0.value)[:80]}`) is computed from that parent's own candidates and counters only, never from the level-wide ranking `{C}`: candidates of different parents are not compared, so a worse candidate of an earlier parent is kept over a better one of a later parent", construct="write-back"))
+                return obs
         obs.append(ctx.ob("C08.O4", f, G, status=INCONCLUSIVE, detail="expected one write-back comprehension inside the guard", construct="write-back"))
         return obs
     W = ws[0]
